@@ -67,6 +67,7 @@ type Run struct {
 	nshards   int
 	workerOut string
 	deadline  time.Time
+	infra     []string
 }
 
 // New creates the run for property id.  Environment: VERIF_TIER (quick|thorough),
@@ -217,9 +218,21 @@ type partial struct {
 	Extra       map[string]any
 	Rule        string
 	Assumptions []string
+	Infra       []string
+}
+
+// InfraError records that part of this run could not be explored soundly (a replay that
+// diverged, ...).  The run goes on; the check ends with exit 3 unless a violation that does
+// not depend on the failed part was found (see Parallel / Finish).
+func (r *Run) InfraError(what string) {
+	r.mu.Lock()
+	r.infra = append(r.infra, what)
+	r.mu.Unlock()
+	r.Cap("infrastructure error: " + what)
 }
 
 func (r *Run) merge(p *partial) {
+	r.infra = append(r.infra, p.Infra...)
 	for k, v := range p.Counters {
 		if strings.HasPrefix(k, "max_") {
 			if v > r.Counters[k] {
@@ -322,6 +335,7 @@ func (r *Run) Parallel(t *testing.T, n int) bool {
 		}(k)
 	}
 	wg.Wait()
+	infra := 0
 	for k := 0; k < n; k++ {
 		out := filepath.Join(dir, fmt.Sprintf("w%d.json", k))
 		b, err := os.ReadFile(out)
@@ -336,7 +350,8 @@ func (r *Run) Parallel(t *testing.T, n int) bool {
 				// exit 3 = the harness itself gave up (replay divergence, nondeterministic
 				// replay, watchdog): an infrastructure error, never a property violation
 				fmt.Fprintf(os.Stderr, "check: INFRASTRUCTURE ERROR in worker %d (announced %q):\n%s\n", k, string(ann), tail)
-				os.Exit(3)
+				infra++
+				continue
 			}
 			r.Violation("crash:"+crashSignature(results[k].log), "worker process died without reporting: "+firstLine(tail),
 				map[string]any{"announced": string(ann), "output": tail, "err": fmt.Sprint(results[k].err)})
@@ -347,6 +362,29 @@ func (r *Run) Parallel(t *testing.T, n int) bool {
 			t.Fatalf("bad partial from worker %d: %v", k, err)
 		}
 		r.merge(&p)
+	}
+	infra += len(r.infra)
+	for _, m := range r.infra {
+		fmt.Fprintf(os.Stderr, "check: INFRASTRUCTURE ERROR reported by a worker: %s\n", m)
+	}
+	if infra > 0 {
+		// the run as a whole is not a verdict (exit 3) - unless other workers found
+		// violations: each of those was replayed (schedules) or is a self-contained case, and
+		// stands whatever went wrong elsewhere; what the failed workers would have covered is
+		// reported as a cap
+		known := loadKnown(r.ID)
+		unknown := 0
+		r.mu.Lock()
+		for k := range r.findings {
+			if _, ok := known[k]; !ok {
+				unknown++
+			}
+		}
+		r.mu.Unlock()
+		if unknown == 0 {
+			os.Exit(3)
+		}
+		r.Cap(fmt.Sprintf("%d worker(s) ended with an infrastructure error (see stderr); their share was not covered", infra))
 	}
 	return true
 }
@@ -421,7 +459,7 @@ func (r *Run) Finish(t *testing.T) {
 	defer os.RemoveAll(WorkDir())
 	if r.worker {
 		p := partial{Counters: r.Counters, Outcomes: r.Outcomes, Samples: r.samples, Exhaustive: r.Exhaustive,
-			Caps: r.Caps, Extra: r.Extra, Rule: r.Rule, Assumptions: r.Assumptions}
+			Caps: r.Caps, Extra: r.Extra, Rule: r.Rule, Assumptions: r.Assumptions, Infra: r.infra}
 		for k := range r.Nontrivial {
 			p.Nontrivial = append(p.Nontrivial, k)
 		}
@@ -465,6 +503,10 @@ func (r *Run) Finish(t *testing.T) {
 	if nviol > 0 {
 		os.Stdout.Sync()
 		os.Exit(1)
+	}
+	if len(r.infra) > 0 {
+		os.Stdout.Sync()
+		os.Exit(3)
 	}
 }
 
